@@ -16,3 +16,11 @@ for w in index['wraps']:
         base[sib['ident']] = sib['sha256']
 json.dump(base, open(os.path.join(engine.VERIF, 'assumed_baseline.json'), 'w'), indent=1, sort_keys=True)
 print('assumed functions recorded:', len(base), 'lost:', len(index['lost']))
+
+# OS-request frame of every unit of the protected-memory properties (see engine.os_effects)
+eff = {}
+for u in index['units']:
+    if set(u['props']) & {'C14', 'C19'}:
+        eff[u['ident']] = engine.os_effects(engine.unit_orig_text(u))
+json.dump(eff, open(os.path.join(engine.VERIF, 'effects_baseline.json'), 'w'), indent=1, sort_keys=True)
+print('OS-request frames recorded:', len(eff))
